@@ -170,6 +170,7 @@ def run(chk: core.Check):
         if ln["obs"].startswith("other:") or ln["obs"] == "reject?":
             chk.add(core.Violation("trace-stray", {"m": "typing-trace", **ln}, f"{ln['variant']} {ln['t']}: {ln['obs']}"))
     rej = trace_validate(chk, judged)
+    core.canary(chk, judged, trace_validate, what="Trace_Typing", skip=set(rej))
     chk.traces_accepted += len(judged) - len(rej)
     chk.evaluations += len(judged)
     for i in rej[:25]:
